@@ -86,7 +86,7 @@ def run(ctx):
     ctx.note("rule", "one case = one TLC state (type tree, protocol version, abstract value | out-of-range number | "
                      "null/empty cell); distinct by the whole case; non-trivial = a composite with at least one element, "
                      "a scalar whose encoding has more than one byte, or an expectation other than a plain encoding")
-    for need in ("null-field", "null-collection-element", "empty-collection", "aware-timestamp", "inet-mixed-text", "inet-canonical-text-with-dotted-quad", "wide-integer-64bit-and-beyond", "decimal-scale-int32-limit", "short-udt-encodings",
+    for need in ("null-field", "null-collection-element", "empty-collection", "aware-timestamp", "length-boundary:vecsize", "v2-unsigned-short-above-32767", "inet-mixed-text", "inet-canonical-text-with-dotted-quad", "wide-integer-64bit-and-beyond", "decimal-scale-int32-limit", "short-udt-encodings",
                  "v2-16bit-collection", "depth-2", "depth-3"):
         if not feats.get(need):
             raise tlc.MachineryError("vacuity: no case with feature %s" % need)
